@@ -187,7 +187,7 @@ def case_of(rec):
     return {k: rec.get(k, 0) for k in ("label", "D", "x", "onint", "ok", "neg", "after")}
 
 
-def judge(ctx, runner, misses):
+def judge(ctx, runner, misses, all_ds=frozenset()):
     """misses: [(record, laws)].  Re-runs each missed case alone (3 copies, then 3..6 more if undecided) and decides.
     A law a slow machine cannot break (H*) is confirmed by one reproduction; a law bounding a delay (S*) only if every
     re-run reproduces it.  Returns (violations, transient, unreproduced, inconclusive, skipped)."""
@@ -212,10 +212,17 @@ def judge(ctx, runner, misses):
                 owner.append(n)
         for it in items:
             it["last_round"] = {l: [0, 0] for l in it["laws"]}
+        # the first observation was made in a process that had made RunT calls with other deadline distances before and beside
+        # it: a re-run keeps that history (the driver starts the longest distance first) - one early finisher per other distance
+        for D in sorted(all_ds - {c["D"] for c in plan}):
+            plan.append(dict(label="early", D=D, x=5, onint="die", ok=True, neg=False, after=0))
+            owner.append(-1)
         # records come back in completion order: match by the id the runner hands out
         first_id = runner.next_id
         rs = runner.run(plan, par=par, group=1, tag="retry")
         for r2, laws2, _ in rs:
+            if owner[r2["id"] - first_id] < 0:
+                continue
             it = items[owner[r2["id"] - first_id]]
             if laws2 is None:
                 continue
@@ -390,7 +397,7 @@ def check(ctx):
         % (runner.scripts, runner.runt_calls, json.dumps(runner.classes, sort_keys=True), len(misses), runner.noisy))
 
     # 5. a miss must reproduce
-    violations, transient, unreproduced, inconclusive, skipped = judge(ctx, runner, misses) if misses else ([], [], [], [], 0)
+    violations, transient, unreproduced, inconclusive, skipped = judge(ctx, runner, misses, all_ds=set(base_of)) if misses else ([], [], [], [], 0)
     for t in transient:
         log("transient timing miss (not reproduced in 3+ re-runs): %s %s" % (t["laws"], json.dumps(t["case"], sort_keys=True)))
     for t in unreproduced:
